@@ -1,7 +1,13 @@
 """Numeric stand-in for myokit.Simulation, used ONLY for native replays of refuted obligations (the sundials-based solver
 cannot be compiled in this sandbox).  It integrates the myokit model with scipy piece-wise between pacing events and offers
 the part of the Simulation API chi uses; sensitivities by central finite differences.  (Adapted from a stand-in written by
-one of the independent mutation-generating sub-agents for its own demonstrations.)"""
+one of the independent mutation-generating sub-agents for its own demonstrations.)
+
+Documented myokit.Simulation behaviour that is reproduced (myokit/_sim/cvodessim.py): run(duration) integrates from the
+simulation's current time t to t + duration starting from the held state *and the held state sensitivities*, logs the
+requested log_times that lie in [t, t + duration), and afterwards holds the final state, the final state sensitivities and
+the time t + duration; reset() restores time 0, the default state and the default state sensitivities; set_time / set_state
+change only the time / the state."""
 import myokit
 import numpy as np
 from scipy.integrate import solve_ivp
@@ -21,11 +27,18 @@ class PySimulation(object):
         self._state = list(self._default_state)
         self._time = 0.0
         self._consts = {}
+        self._s_default = None
+        if self._sensitivities is not None:
+            pars = self._sensitivities[1]
+            self._s_default = np.array([[1.0 if p == 'init(%s)' % st else 0.0 for p in pars] for st in self._states])
+        self._s_state = None if self._s_default is None else self._s_default.copy()
 
     # --- configuration -----------------------------------------------------
     def reset(self):
         self._state = list(self._default_state)
         self._time = 0.0
+        if self._s_default is not None:
+            self._s_state = self._s_default.copy()
 
     def set_time(self, time=0):
         self._time = float(time)
@@ -52,7 +65,7 @@ class PySimulation(object):
         self._protocol = None if protocol is None else protocol.clone()
 
     # --- numerics ----------------------------------------------------------
-    def _integrate(self, state0, consts, log, log_times, duration):
+    def _integrate(self, state0, consts, log, log_times, duration, t0=0.0, want_end=False):
         model = self._model.clone()
         for name, value in consts.items():
             model.get(name).set_rhs(value)
@@ -83,13 +96,14 @@ class PySimulation(object):
         if (self._protocol is not None) and (pace_var is not None):
             pacing = myokit.PacingSystem(self._protocol)
 
-        t = 0.0
+        t = float(t0)
         y = np.array(state0, dtype=float)
         results = []
-        times = [float(x) for x in log_times]
+        t_end = float(t0) + float(duration)
+        # only the log times inside [t0, t0 + duration) are logged
+        times = [float(x) for x in log_times if float(t0) <= float(x) < t_end]
         idx = 0
-        t_end = float(duration)
-        while idx < len(times):
+        while t < t_end:
             pace = 0.0
             t_next = t_end
             if pacing is not None:
@@ -115,7 +129,8 @@ class PySimulation(object):
                 break
         assert len(results) == len(times), (len(results), len(times))
         results = np.array(results).reshape(len(times), len(log))
-        return {name: list(results[:, i]) for i, name in enumerate(log)}
+        out = {name: list(results[:, i]) for i, name in enumerate(log)}
+        return (out, np.array(y, dtype=float)) if want_end else out
 
     @staticmethod
     def _eval(model, var, t, y, pace, time_var, pace_var, states):
@@ -145,17 +160,27 @@ class PySimulation(object):
 
     def run(self, duration, log=None, log_times=None):
         log = list(log)
-        out = self._integrate(
-            self._state, self._consts, log, log_times, duration)
+        duration = float(duration)
+        if duration < 0:
+            raise ValueError("Simulation time can't be negative.")
+        t0 = self._time
+        state0 = list(self._state)
+        out, y_end = self._integrate(state0, self._consts, log, log_times, duration, t0, True)
+        self._state = [float(v) for v in y_end]
+        self._time = t0 + duration
         if self._sensitivities is None:
             return out
+        log_times = [float(x) for x in log_times if t0 <= float(x) < t0 + duration]
 
         outs, pars = self._sensitivities
         sens = np.zeros((len(log_times), len(outs), len(pars)))
+        s_end = np.zeros((len(self._states), len(pars)))
+        self_state = state0
         for ip, p in enumerate(pars):
             res = []
+            ends = []
             for sign in (+1, -1):
-                state = list(self._state)
+                state = list(self_state)
                 consts = dict(self._consts)
                 if p.startswith('init(') and p.endswith(')'):
                     k = self._states.index(p[5:-1])
@@ -167,7 +192,28 @@ class PySimulation(object):
                         base = float(self._model.get(p).rhs().eval())
                     h = 1e-5 * max(1.0, abs(base))
                     consts[p] = base + sign * h
-                o = self._integrate(state, consts, outs, log_times, duration)
-                res.append(np.array([o[n] for n in outs]))
+                o, ye = self._integrate(state, consts, outs, log_times, duration, t0, True)
+                res.append(np.array([o[n] for n in outs]).reshape(len(outs), len(log_times)))
+                ends.append(ye)
             sens[:, :, ip] = ((res[0] - res[1]) / (2 * h)).T
+            s_end[:, ip] = (ends[0] - ends[1]) / (2 * h)
+        # state sensitivities held at the start of this run that are not the default ones propagate linearly
+        delta = self._s_state - self._s_default
+        if np.any(delta != 0):
+            for k_ in range(len(self._states)):
+                if not np.any(delta[k_] != 0):
+                    continue
+                h = 1e-5 * max(1.0, abs(self_state[k_]))
+                res, ends = [], []
+                for sign in (+1, -1):
+                    state = list(self_state)
+                    state[k_] += sign * h
+                    o, ye = self._integrate(state, self._consts, outs, log_times, duration, t0, True)
+                    res.append(np.array([o[n] for n in outs]).reshape(len(outs), len(log_times)))
+                    ends.append(ye)
+                jout = ((res[0] - res[1]) / (2 * h)).T            # [time][output]
+                jend = (ends[0] - ends[1]) / (2 * h)
+                sens += jout[:, :, None] * delta[k_][None, None, :]
+                s_end += jend[:, None] * delta[k_][None, :]
+        self._s_state = s_end
         return out, [s for s in sens]
